@@ -75,7 +75,7 @@ class WebsocketSession(object):
         """Force the socket to disconnect."""
         raise _ForceDisconnect()
 
-    def write(self, data):
+    def write(self, data, closing=False):
         """Send raw data."""
         with self._lock:
             if self._sock is None:
@@ -87,6 +87,10 @@ class WebsocketSession(object):
             if self.websocket.is_closing:
                 log.debug('WebSocket closing; data not sent')
                 raise errors.WebSocketClosing('data not sent')
+            if closing:
+                # Enter the closing state while the lock is held, so that
+                # no other thread can write after the close frame
+                self.websocket.state.closing = True
             try:
                 self._sock.sendall(data)
             except socket.error as error:
@@ -103,7 +107,7 @@ class WebsocketSession(object):
     def send(self, opcode, data):
         """Send a WS Frame."""
         frame = Frame(opcode, payload=bytearray(data))
-        self.write(frame.to_bytes())
+        self.write(frame.to_bytes(), closing=frame.is_close)
         log.debug(' SRV <- CLI : %r', frame)
 
     def send_compressed(self, opcode, data):
